@@ -136,6 +136,21 @@ impl SharedCatalog {
             kept: false,
         }
     }
+
+    /// Registers a row id chosen by the caller (recovery replays logged rows under their logged ids):
+    /// the allocator moves past it, and the id is never given back.
+    pub(crate) fn claim_row_id(&self, relation: &Relation, id: u64) -> RowIdLease {
+        let persisted = relation.next_row_id().value();
+        let mut ids = self.row_ids.lock();
+        let next = ids.entry(relation.object_id()).or_insert(persisted);
+        *next = (*next).max(persisted).max(id + 1);
+        RowIdLease {
+            catalog: self.clone(),
+            table: relation.object_id(),
+            id,
+            kept: true,
+        }
+    }
 }
 
 /// A row id handed out by [`SharedCatalog::lease_row_id`].
